@@ -402,6 +402,8 @@ var c16ColDefs = []string{
 	`a CHECK (a > 0)`, `a REFERENCES o(x)`, `a REFERENCES o(x) DEFERRABLE`, `a REFERENCES o(x) DEFERRABLE INITIALLY DEFERRED`, `a REFERENCES o(x) ON DELETE CASCADE`,
 	`a REFERENCES o(x) ON DELETE SET NULL ON UPDATE NO ACTION`, `a NOT NULL DEFAULT 'q' COLLATE NOCASE`, `a UNIQUE NOT NULL`, `"a" TEXT`, `[a]`, "`a` INT", `éa TEXT`, `éa`,
 	`"a""q" TEXT`, "`a``q`", "`a``q` INT UNIQUE", `[a q] COLLATE NOCASE`, `"a""q"`,
+	// what opens or closes a comment outside quotes, inside a literal (and a real comment)
+	`a DEFAULT '/*'`, `a DEFAULT '*/'`, `a DEFAULT '--'`, `a /* c */ TEXT`,
 }
 
 var c16IdxCols = []string{`a`, `a DESC`, `a ASC`, `a COLLATE NOCASE`, `a COLLATE RTRIM DESC`, `a COLLATE BINARY ASC`, `"a"`, `[a] DESC`, `a + 1`, `lower(a)`, `a COLLATE nocase`, `éa`}
